@@ -23,6 +23,75 @@ enum Call {
     Accepting,
 }
 
+impl Call {
+    fn enc(&self) -> String {
+        match self {
+            Call::Mask => "mask".into(),
+            Call::Commit(t) => format!("commit:{t}"),
+            Call::ValidateAll => "validate_all".into(),
+            Call::Rollback1 => "rollback1".into(),
+            Call::FfBytes => "ff_bytes".into(),
+            Call::Accepting => "accepting".into(),
+        }
+    }
+    fn dec(s: &str) -> Option<Call> {
+        Some(match s {
+            "mask" => Call::Mask,
+            "validate_all" => Call::ValidateAll,
+            "rollback1" => Call::Rollback1,
+            "ff_bytes" => Call::FfBytes,
+            "accepting" => Call::Accepting,
+            _ => Call::Commit(s.strip_prefix("commit:")?.parse().ok()?),
+        })
+    }
+}
+
+/// `./check replay <file>` for a layer-2 violation: re-run the recorded schedule (twice) under the
+/// controlled scheduler, without the explorer
+pub fn replay_schedule(d: &serde_json::Value) -> i32 {
+    let g = GrammarSpec::from_json(&d["grammar"]);
+    let vocab = VocabSpec::from_json(&d["vocab"]);
+    let f = Factory::new(&vocab, &Slices::Default).unwrap();
+    let nv = f.n_vocab as u32;
+    let threads: Vec<(Vec<u32>, bool, Vec<Call>)> = d["threads"]
+        .as_array()
+        .cloned()
+        .unwrap_or_default()
+        .iter()
+        .zip(d["scripts_enc"].as_array().cloned().unwrap_or_default().iter())
+        .map(|(t, s)| {
+            let h: Vec<u32> = t["history"].as_array().map(|a| a.iter().map(|x| x.as_u64().unwrap() as u32).collect()).unwrap_or_default();
+            let sc: Vec<Call> = s.as_array().map(|a| a.iter().filter_map(|x| Call::dec(x.as_str().unwrap_or(""))).collect()).unwrap_or_default();
+            (h, t["deep_clone"].as_bool().unwrap_or(false), sc)
+        })
+        .collect();
+    let schedule: Vec<usize> = d["schedule"].as_array().map(|a| a.iter().map(|x| x.as_u64().unwrap() as usize).collect()).unwrap_or_default();
+    println!("grammar: {}", g.short());
+    for (i, (h, deep, sc)) in threads.iter().enumerate() {
+        println!("thread {i}: history {:?} deep_clone={} script {:?}", h, deep, sc.iter().map(|c| c.enc()).collect::<Vec<_>>());
+        println!("  expected (private engine): {:?}", private_obs(&f, &g, h, sc));
+    }
+    println!("schedule: {:?}", schedule);
+    for round in 0..2 {
+        let root = f.matcher(&g);
+        let bodies: Vec<Box<dyn FnOnce() -> Vec<String> + Send>> = threads
+            .iter()
+            .map(|(h, deep, sc)| {
+                let mut m = if *deep { root.deep_clone() } else { root.clone() };
+                let _ = m.consume_tokens(h);
+                let sc = sc.clone();
+                Box::new(move || sc.iter().map(|c| obs_call(&mut m, c, nv)).collect::<Vec<String>>()) as Box<dyn FnOnce() -> Vec<String> + Send>
+            })
+            .collect();
+        let r = std::panic::catch_unwind(std::panic::AssertUnwindSafe(|| run_schedule(bodies, &schedule)));
+        match r {
+            Ok(r) => println!("run {round}: deadlock={} panics={:?}\n  got {:?}", r.deadlock, r.panics, r.results),
+            Err(_) => println!("run {round}: schedule replay diverged (the code under test no longer offers this schedule)"),
+        }
+    }
+    0
+}
+
 fn obs_call(m: &mut Matcher, c: &Call, nv: u32) -> String {
     match c {
         Call::Mask => match m.compute_mask() {
@@ -223,6 +292,11 @@ fn layer1(ctx: &Ctx) {
                         continue;
                     }
                     for sa in scr[ia].iter() {
+                        if ctx.elapsed() > layer_budget {
+                            ctx.count("layer1_script_rows_skipped_budget", 1);
+                            ctx.cap_hit.store(true, Ordering::Relaxed);
+                            break;
+                        }
                         for sb in scr[ib].iter() {
                             let ea = memo.entry((ha.clone(), sa.clone())).or_insert_with(|| private_obs(&f, &g.g, ha, sa)).clone();
                             let eb = memo.entry((hb.clone(), sb.clone())).or_insert_with(|| private_obs(&f, &g.g, hb, sb)).clone();
@@ -347,7 +421,7 @@ fn layer2(ctx: &Ctx) {
                         class: if r.deadlock { "clone-deadlock".into() } else { "clone-interference".into() },
                         signature: format!("{}|cfg{}|{:?}", g.name, ci, choices),
                         detail: json!({"kind": "schedule", "grammar": g.g.to_json(), "vocab": g.vocab.to_json(), "threads": cfgv.iter().map(|(h, d)| json!({"history": h, "deep_clone": d})).collect::<Vec<_>>(),
-                            "scripts": scripts_v.iter().map(|s| format!("{:?}", s)).collect::<Vec<_>>(), "schedule": choices, "deadlock": r.deadlock, "panics": r.panics, "got": r.results, "expected": expected}),
+                            "scripts": scripts_v.iter().map(|s| format!("{:?}", s)).collect::<Vec<_>>(), "scripts_enc": scripts_v.iter().map(|s| s.iter().map(|c| c.enc()).collect::<Vec<_>>()).collect::<Vec<_>>(), "schedule": choices, "deadlock": r.deadlock, "panics": r.panics, "got": r.results, "expected": expected}),
                     });
                 }
                 ok
